@@ -26,10 +26,10 @@ type Lit struct {
 	Pos  bool
 	Val  ssa.Value // the leaf condition value (nil for compound keys)
 	Fn   *ssa.Function
-	Kind string // "cond", "eq", "lt", "or", "and", "rangeloop", "rangefunc"
+	Kind string    // "cond", "eq", "lt", "or", "and", "rangeloop", "rangefunc"
 	X, Y ssa.Value // operands for eq / lt
-	Subs []Lit // for compound literals: the sub-literals (each with its own polarity inside the compound)
-	Via  string // helper function this literal was expanded from ("" if direct)
+	Subs []Lit     // for compound literals: the sub-literals (each with its own polarity inside the compound)
+	Via  string    // helper function this literal was expanded from ("" if direct)
 }
 
 func (l Lit) String() string {
@@ -41,9 +41,9 @@ func (l Lit) String() string {
 
 // formula is a boolean combination of leaf conditions.
 type formula struct {
-	op   string // "leaf", "not", "or", "and"
-	sub  []*formula
-	lit  Lit // for leaf: positive literal
+	op  string // "leaf", "not", "or", "and"
+	sub []*formula
+	lit Lit // for leaf: positive literal
 }
 
 func (P *Program) condFormula(v ssa.Value, depth int) *formula {
